@@ -56,7 +56,16 @@ def extent_spec(draw, tier="quick", kind=None, layer=0, capacity=None, allow_com
                         cmix=draw(st.integers(0, 4)), zlevel=draw(st.sampled_from([6, 6, 1, 0, 9])),
                         version=draw(st.sampled_from([3, 3, 1, 2])))  # the 1.1 format document describes compressed extents with version 1
             grain = min(grain, 256)
-            if draw(st.integers(0, 2)) == 0:
+            fit = draw(st.integers(0, 3))
+            if fit == 3:
+                # marker + deflate stream fill exactly a whole number of sectors, for some grains exactly the grain's own size, so
+                # that consecutive grains are also physically consecutive at a distance of one grain (run merging)
+                grain = min(grain, 16)
+                hdr = 12 if spec["embedded_lba"] else 4
+                spec["ctargets"] = [grain * 512 - hdr, grain * 512 - hdr - 1, grain * 512 - hdr, (grain - 1) * 512 - hdr, grain * 512 - hdr + 1]
+                spec["zlevel"] = 6
+                spec["fit_exact"] = True
+            elif fit == 0:
                 # deflate streams sized around the 512-byte sector boundaries of header + data
                 spec["ctargets"] = draw(st.lists(st.one_of(st.integers(494, 518), st.integers(1006, 1030), st.integers(20, 600)),
                                                  min_size=1, max_size=6))
